@@ -46,3 +46,19 @@ S(id="HT.remove", props=["C19", "C12"], harness="h_remove", mode="L", enforce=["
 S(id="HT.size", props=["C19"], harness="h_size", mode="L", enforce=["hash_table_size/size_c"], functions=["hash_table_size"], what="accessor", **HT)
 S(id="HT.elements", props=["C19"], harness="h_elements", mode="L", enforce=["hash_table_elements_number/elements_c"], functions=["hash_table_elements_number"],
   what="elements = inserted - deleted", **HT)
+
+# ---------------- C19: objstack.c ----------------
+OS = dict(spec="objstack.spec.c", params={"quick": {"CAP": 64}, "thorough": {"CAP": 1024}})
+S(id="OS.create", props=["C19", "C12"], harness="h_os_create", mode="L", enforce=["_OS_create_function/os_create_c"], functions=["_OS_create_function"],
+  what="fresh first segment of the requested (or default) length, one empty top object at the first payload byte, invariant holds", **OS)
+S(id="OS.expand", props=["C19", "C12"], harness="h_os_expand", mode="L", canaries=2, enforce=["_OS_expand_memory/os_expand_c"], functions=["_OS_expand_memory"],
+  what="top object moved with same length and bytes (ghost index) and room for the request; old segment released iff it held only the top object, else kept and linked (finished objects never move)", **OS)
+for nm, fn, c, extra in [("finish", "w_top_finish", "top_finish_c", []), ("nullify", "w_top_nullify", "top_nullify_c", []),
+                         ("shorten", "w_top_shorten", "top_shorten_c", []), ("length", "w_top_length", "top_length_c", []),
+                         ("add_byte", "w_top_add_byte", "top_add_byte_c", ["_OS_expand_memory/os_expand_use_c"]),
+                         ("add_memory", "w_top_add_memory", "top_add_memory_c", ["_OS_expand_memory/os_expand_use_c"]),
+                         ("expand", "w_top_expand", "top_expand_c", ["_OS_expand_memory/os_expand_use_c"])]:
+    S(id="OS.top." + nm, props=["C19", "C12"], harness="h_top_" + nm, mode="L", enforce=["%s/%s" % (fn, c)], replace=extra,
+
+      functions=["OS_TOP_%s (macro, via one-line wrapper %s)" % (nm.upper(), fn)],
+      what="macro OS_TOP_%s: length arithmetic, appended bytes, earlier bytes unchanged, writes stay inside the segment" % nm.upper(), **OS)
